@@ -4,10 +4,10 @@ from exact import *
 
 PID = "C01"
 THEOREMS = ["Parmcb.C01." + t for t in ["c01_count", "c01_cycles", "c01_independent", "c01_spans", "c01_basis", "c01_of_graph"]] + \
-    ["Parmcb.C02." + t for t in ["c02_fvs_trees_end_to_end", "c02_iso_trees_end_to_end", "c02_signed_end_to_end"]]
+    ["Parmcb.C02." + t for t in ["c02_fvs_trees_end_to_end", "c02_iso_trees_end_to_end", "c02_signed_end_to_end", "c02_signed_heap_end_to_end"]]
 def the_oracle(case, block, mu_cache): return oracle_c01(case, block)
 ASSUME = ["relational layer: the emitted cycle of a phase is an open choice (ties); the theorems quantify over every choice satisfying the phase contract PhaseOK, and every run of the C++ is validated against it (per-phase optimum from the model's signed-graph distances; definitional enumeration of all 2^m edge subsets on graphs with m<=11)",
-          "literal layer: Model/TreesAlgo.lean and Model/SignedAlgo.lean + Model/BiSearch.lean are end-to-end literal models of the tree variants and of mcb_sva_signed(_tbb) whose correctness is PROVED with no hypothesis about the searches (c02_*_end_to_end); the tree variants' main loop is replayed literally on every run with the sorted candidate list the C++ reports (hook report_candidates) and must emit exactly the C++'s cycles; for the signed variant the emitted cycle depends on heap ties, so equality is not demanded: every search result is compared with the model's distance (hooks) and every phase with PhaseOK",
+          "literal layer: Model/TreesAlgo.lean and Model/SignedAlgo.lean + Model/BiSearch.lean are end-to-end literal models of the tree variants and of mcb_sva_signed(_tbb) whose correctness is PROVED with no hypothesis about the searches (c02_*_end_to_end); the tree variants' main loop is replayed literally on every run with the sorted candidate list the C++ reports (hook report_candidates) and must emit exactly the C++'s cycles; mcb_sva_signed is replayed literally as well (Model/HeapAlgo.lean: literal boost 4-ary heaps, the caller's out-edge order, the std::set order read off the reported searches) and must emit exactly the C++'s cycles, phase by phase; mcbSignedH is proved to be an instance of the oracle model (c02_signed_heap_end_to_end)",
           "Model/DePina.lean support bookkeeping literal for signed / signed_tbb / trees / mpi", "C16 supplies ExactDomain for the ForestIndex numbering"]
 
 def focused_search(res, pid, binary, cases, meta, diffs, oracle, r):
@@ -97,7 +97,7 @@ def run(tier, replay=None, pid=PID, theorems=THEOREMS, oracle=the_oracle, module
     oks, diffs, viols = parse_driver(verdicts)
     br = {"all_vertices_phases": sum(int(w[6]) for w in oks), "hidden_edge_phases": sum(int(w[7]) for w in oks),
           "runs_with_definitional_optimum": sum(int(w[8]) for w in oks), "phases_total": sum(int(w[4]) for w in oks),
-          "tree_variant_runs_replayed_literally_end_to_end": sum(int(w[10]) for w in oks if len(w) > 10)}
+          "runs_replayed_literally_end_to_end_with_equal_cycles": sum(int(w[10]) for w in oks if len(w) > 10)}
     res.coverage.update({"evaluations": len(cases), "distinct_nontrivial": distinct_nontrivial(cases, lambda c: len(c[1]) - c[0] + components(c[0], c[1]) >= 1) ,
         "rule": "graphs as in C16 x {mcb_sva_signed, mcb_sva_fvs_trees, mcb_sva_iso_trees} x weight type {double (unit, 1..3, 1..1000, dyadic), int}; non-trivial = cycle space dimension >= 1; distinct by weighted graph",
         "traces_validated_against_impl": len(oks), "branch_coverage": br,
